@@ -1,6 +1,7 @@
 import XzVerif.Model.ReadLoop
 import XzVerif.Proofs.ReadLoops
 import XzVerif.Proofs.LazyDec
+import XzVerif.Proofs.Fuel
 /-
   C13 — Decoded output is independent of read sizes and source fragmentation; EOF is stable.
 
@@ -238,6 +239,36 @@ open LazyDec in
 theorem C13_lazy_never_no_space (cfgCap : Nat) (inp : ByteArray) (l : LSt) (h : newReader cfgCap inp = .ok l) (lens : List Nat) :
     ∀ r ∈ readSeq l lens, r.2 ≠ .err .noSpace ∧ r.2 ≠ .err .lenRange ∧ r.2 ≠ .err .panic :=
   LazyDec.never_noSpace cfgCap inp l h lens
+
+/-! the same without the fuel hypothesis: the recursion bound of the batch model is never reached (Proofs/Fuel.lean) -/
+
+open LazyDec in
+/-- **Independence of the read sizes, unconditionally**: for EVERY input, any two schedules of buffer lengths that both
+    run into `io.EOF` deliver the same bytes — the batch reader's output, which ends cleanly. -/
+theorem C13_lazy_schedule_independent' (cfgCap : Nat) (inp : ByteArray) (l : LSt) (h : newReader cfgCap inp = .ok l)
+    (lens1 lens2 : List Nat)
+    (h1 : lastStat (readSeq l lens1) = .eof) (h2 : lastStat (readSeq l lens2) = .eof) :
+    delivered (readSeq l lens1) = delivered (readSeq l lens2) ∧
+    delivered (readSeq l lens1) = (Lzma1.read (effCap cfgCap) inp).out ∧
+    (Lzma1.read (effCap cfgCap) inp).status = .eof := by
+  have hf := Fuel.lzma1_read_fuel (effCap cfgCap) inp
+  have e1 := LazyDec.eof_complete cfgCap inp l h lens1 hf h1
+  have e2 := LazyDec.eof_complete cfgCap inp l h lens2 hf h2
+  exact ⟨by rw [e1.2, e2.2], e1.2, e1.1⟩
+
+open LazyDec in
+theorem C13_lazy_delivered_prefix' (cfgCap : Nat) (inp : ByteArray) (l : LSt) (h : newReader cfgCap inp = .ok l)
+    (lens : List Nat) :
+    let out := (Lzma1.read (effCap cfgCap) inp).out
+    (delivered (readSeq l lens)).size ≤ out.size ∧
+    delivered (readSeq l lens) = out.extract 0 (delivered (readSeq l lens)).size :=
+  LazyDec.delivered_prefix cfgCap inp l h lens (Fuel.lzma1_read_fuel (effCap cfgCap) inp)
+
+open LazyDec in
+theorem C13_lazy_errors_agree' (cfgCap : Nat) (inp : ByteArray) (l : LSt) (h : newReader cfgCap inp = .ok l) (lens : List Nat)
+    (e : Err) (he : lastStat (readSeq l lens) = .err e) :
+    (Lzma1.read (effCap cfgCap) inp).status.cls = (statusOf e).cls :=
+  LazyDec.err_agrees cfgCap inp l h lens (Fuel.lzma1_read_fuel (effCap cfgCap) inp) e he
 
 open LazyDec in
 theorem C13_lazy_open_agrees (cfgCap : Nat) (inp : ByteArray) :
